@@ -172,3 +172,234 @@ where
     res.closed = frontier.is_empty() && !res.capped;
     res
 }
+
+// ---------------------------------------------------------------------------------------------
+// Bounded depth-first exploration (states live only on the stack; for large states).
+
+use std::collections::HashMap;
+use std::sync::atomic::{AtomicBool, AtomicU64, Ordering};
+use std::sync::Mutex;
+
+pub struct DfsResult<E> {
+    pub states: u64,
+    pub transitions: u64,
+    pub depth: u32,
+    pub capped: bool,
+    pub classes: [u64; 16],
+    pub violations: Vec<Found<E>>,
+    pub sample_traces: Vec<(usize, Vec<E>)>,
+}
+
+struct Shared<E> {
+    seen: Vec<Mutex<HashMap<u128, u8>>>,
+    states: AtomicU64,
+    transitions: AtomicU64,
+    classes: Vec<AtomicU64>,
+    capped: AtomicBool,
+    violations: Mutex<Vec<Found<E>>>,
+    samples: Mutex<Vec<(usize, Vec<E>)>>,
+}
+
+fn dfs_rec<S, E>(
+    sh: &Shared<E>,
+    events: &[E],
+    key: &(dyn Fn(&S) -> u128 + Sync),
+    step: &(dyn Fn(&S, &E) -> Step<S> + Sync),
+    cfg: &Cfg,
+    init: usize,
+    s: &S,
+    remaining: u32,
+    trace: &mut Vec<usize>,
+) where
+    S: Clone + Send + Sync,
+    E: Clone + Send + Sync + Debug,
+{
+    if remaining == 0 || sh.capped.load(Ordering::Relaxed) {
+        return;
+    }
+    for (ei, e) in events.iter().enumerate() {
+        match step(s, e) {
+            Step::Disabled => {}
+            Step::Violation { signature, what } => {
+                sh.transitions.fetch_add(1, Ordering::Relaxed);
+                let mut v = sh.violations.lock().unwrap();
+                let tr_len = trace.len() + 1;
+                // keep the shortest trace per signature
+                let pos = v.iter().position(|f| f.signature == signature);
+                let better = match pos {
+                    Some(p) => v[p].trace.len() > tr_len,
+                    None => v.len() < cfg.max_violations,
+                };
+                if better {
+                    let mut tr: Vec<E> = trace.iter().map(|&i| events[i].clone()).collect();
+                    tr.push(e.clone());
+                    let f = Found { signature, what, init, trace: tr };
+                    match pos {
+                        Some(p) => v[p] = f,
+                        None => v.push(f),
+                    }
+                }
+            }
+            Step::Next(n, c) => {
+                sh.transitions.fetch_add(1, Ordering::Relaxed);
+                sh.classes[(c & 15) as usize].fetch_add(1, Ordering::Relaxed);
+                let k = key(&n);
+                let rem = (remaining - 1).min(255) as u8;
+                let fresh = {
+                    let mut m = sh.seen[(k as usize) % sh.seen.len()].lock().unwrap();
+                    match m.get_mut(&k) {
+                        Some(r) if *r >= rem => None,
+                        Some(r) => {
+                            *r = rem;
+                            Some(false)
+                        }
+                        None => {
+                            m.insert(k, rem);
+                            Some(true)
+                        }
+                    }
+                };
+                if let Some(new) = fresh {
+                    if new {
+                        let st = sh.states.fetch_add(1, Ordering::Relaxed) + 1;
+                        if st >= cfg.max_states {
+                            sh.capped.store(true, Ordering::Relaxed);
+                        }
+                        if st % 50_001 == 0 {
+                            let mut sm = sh.samples.lock().unwrap();
+                            if sm.len() < 6 {
+                                let mut tr: Vec<E> = trace.iter().map(|&i| events[i].clone()).collect();
+                                tr.push(e.clone());
+                                sm.push((init, tr));
+                            }
+                        }
+                    }
+                    trace.push(ei);
+                    dfs_rec(sh, events, key, step, cfg, init, &n, remaining - 1, trace);
+                    trace.pop();
+                }
+            }
+        }
+    }
+}
+
+/// Explore all event sequences of length <= cfg.max_depth from every initial state, pruning a
+/// state only when it was already expanded with at least as much remaining depth (sound for the
+/// depth bound). Work is split over (initial state, first event).
+pub fn dfs<S, E>(
+    inits: Vec<S>,
+    events: &[E],
+    key: &(dyn Fn(&S) -> u128 + Sync),
+    step: &(dyn Fn(&S, &E) -> Step<S> + Sync),
+    cfg: &Cfg,
+) -> DfsResult<E>
+where
+    S: Clone + Send + Sync,
+    E: Clone + Send + Sync + Debug,
+{
+    let sh: Shared<E> = Shared {
+        seen: (0..256).map(|_| Mutex::new(HashMap::new())).collect(),
+        states: AtomicU64::new(inits.len() as u64),
+        transitions: AtomicU64::new(0),
+        classes: (0..16).map(|_| AtomicU64::new(0)).collect(),
+        capped: AtomicBool::new(false),
+        violations: Mutex::new(vec![]),
+        samples: Mutex::new(vec![]),
+    };
+    let depth = cfg.max_depth.min(255);
+    // level 1 is expanded here so that the work items are (init, first event, state)
+    let mut items: Vec<(usize, usize)> = vec![];
+    for i in 0..inits.len() {
+        for ei in 0..events.len() {
+            items.push((i, ei));
+        }
+    }
+    crate::common::par_map(&items, |_, &(i, ei)| {
+        if depth == 0 {
+            return;
+        }
+        let mut trace = vec![];
+        dfs_first(&sh, events, key, step, cfg, i, &inits[i], depth, ei, &mut trace);
+    });
+    let mut sm = sh.samples.into_inner().unwrap();
+    sm.truncate(6);
+    DfsResult {
+        states: sh.states.load(Ordering::Relaxed),
+        transitions: sh.transitions.load(Ordering::Relaxed),
+        depth,
+        capped: sh.capped.load(Ordering::Relaxed),
+        classes: {
+            let mut c = [0u64; 16];
+            for i in 0..16 {
+                c[i] = sh.classes[i].load(Ordering::Relaxed);
+            }
+            c
+        },
+        violations: sh.violations.into_inner().unwrap(),
+        sample_traces: sm,
+    }
+}
+
+#[allow(clippy::too_many_arguments)]
+fn dfs_first<S, E>(
+    sh: &Shared<E>,
+    events: &[E],
+    key: &(dyn Fn(&S) -> u128 + Sync),
+    step: &(dyn Fn(&S, &E) -> Step<S> + Sync),
+    cfg: &Cfg,
+    init: usize,
+    s: &S,
+    depth: u32,
+    ei: usize,
+    trace: &mut Vec<usize>,
+) where
+    S: Clone + Send + Sync,
+    E: Clone + Send + Sync + Debug,
+{
+    // same as one iteration of dfs_rec's loop, restricted to event `ei`
+    match step(s, &events[ei]) {
+        Step::Disabled => {}
+        Step::Violation { signature, what } => {
+            sh.transitions.fetch_add(1, Ordering::Relaxed);
+            let mut v = sh.violations.lock().unwrap();
+            let pos = v.iter().position(|f| f.signature == signature);
+            let better = match pos {
+                Some(p) => v[p].trace.len() > 1,
+                None => v.len() < cfg.max_violations,
+            };
+            if better {
+                let f = Found { signature, what, init, trace: vec![events[ei].clone()] };
+                match pos {
+                    Some(p) => v[p] = f,
+                    None => v.push(f),
+                }
+            }
+        }
+        Step::Next(n, c) => {
+            sh.transitions.fetch_add(1, Ordering::Relaxed);
+            sh.classes[(c & 15) as usize].fetch_add(1, Ordering::Relaxed);
+            let k = key(&n);
+            let rem = (depth - 1).min(255) as u8;
+            let go = {
+                let mut m = sh.seen[(k as usize) % sh.seen.len()].lock().unwrap();
+                match m.get_mut(&k) {
+                    Some(r) if *r >= rem => false,
+                    Some(r) => {
+                        *r = rem;
+                        true
+                    }
+                    None => {
+                        m.insert(k, rem);
+                        sh.states.fetch_add(1, Ordering::Relaxed);
+                        true
+                    }
+                }
+            };
+            if go {
+                trace.push(ei);
+                dfs_rec(sh, events, key, step, cfg, init, &n, depth - 1, trace);
+                trace.pop();
+            }
+        }
+    }
+}
